@@ -646,7 +646,14 @@ Definition step (op : cop) (s : state) : res state :=
      itself in the update with its reverseCol given (the loop "tag their reverse column as changing");
    - a removed column is no longer the reverse column of a remaining one (cleared through the back-reference
      update of doBulkRemoveRecord / the reverseCol=0 update of _removeTableRecords);
-   - the column updates of a table rename touch type, formula and isFormula only. *)
+   - the column updates of a table rename touch type, formula and isFormula only;
+   - the column ids of a new table are distinct. *)
+Fixpoint nodupb {A} (e : A -> A -> bool) (l : list A) : bool :=
+  match l with
+  | [] => true
+  | x :: t => negb (existsb (e x) t) && nodupb e t
+  end.
+
 Definition renamed_in (cs : list crec) (upds : list (Z * cpatch)) (x : Z) : bool :=
   match assoc x upds, find_col x cs with
   | Some ux, Some rx => match u_colId ux with Some n => negb (str_eqb n (c_colId rx)) | None => false end
@@ -682,6 +689,7 @@ Definition cop_pre (op : cop) (s : state) : bool :=
   | CUpdateTables tupds cupds =>
       forallb (fun ku => let u := snd ku in
                  match u_parent u, u_colId u, u_rev u with None, None, None => true | _, _, _ => false end) cupds
+  | CAddTable t cols => nodupb str_eqb (map c_colId cols)     (* pick_col_ident_list de-duplicates the ids *)
   | CRaw _ => false
   | _ => true
   end.
@@ -732,12 +740,6 @@ Definition meta_eqb (a b : meta) : bool :=
 (* the stray-column check of assert_schema_consistent *)
 Definition no_strayb (m : meta) : bool :=
   forallb (fun c => match find_table (c_parent c) (m_tables m) with Some _ => true | None => false end) (m_cols m).
-
-Fixpoint nodupb {A} (e : A -> A -> bool) (l : list A) : bool :=
-  match l with
-  | [] => true
-  | x :: t => negb (existsb (e x) t) && nodupb e t
-  end.
 
 Definition wfb (m : meta) : bool :=
   nodupb Z.eqb (map t_id (m_tables m)) && nodupb str_eqb (map t_tableId (m_tables m)) &&
